@@ -109,3 +109,40 @@ func FuzzC04(f *testing.F) {
 		t.Fatalf("%v", ff)
 	})
 }
+
+// FuzzC23: any source text the checker accepts must survive formatting with
+// its meaning intact (the oracle is runC23, as in the rapid check).
+func FuzzC23(f *testing.F) {
+	st := vstat.New("C23", "")
+	st.Probes(f, func(raw json.RawMessage) *vstat.Failure {
+		c, err := vstat.JSON[c23Case](raw)
+		if err != nil {
+			return vstat.Failf("bad-replay", "%v", err)
+		}
+		ff, _ := runC23(c)
+		return ff
+	})
+	for _, p := range loadCorpus() {
+		if len(p) <= 4096 {
+			f.Add([]byte(p))
+		}
+	}
+	for _, s := range []string{"counter c\n/a/ {\n  c++\n}\n", "hidden gauge g by a, b\ncounter x as \"y z\" by k limit 3\nhistogram h by \"k-1\" buckets 0.001, 1, 2.5\nconst X /a\\/b/\n/(?P<v>\\d+) (\\S+)/ + X {\n  g[$v][$2] = (1 + $v) * 2 - -3\n  x[tolower(\"Q\\\"\\\\\")]++\n  h[$2] = $v ** 2.0\n  del g[$v][$2] after 90s\n}\n", "def d {\n  /x/ {\n    next\n  }\n}\ncounter c\n@d {\n  $0 =~ /a/ && strptime($0, \"2006\") > 1 || 1 < 2 {\n    c++\n  } else {\n    stop\n  }\n  otherwise {\n    c += len($0) & 3 | 1 ^ 2 << 1 >> 1\n  }\n}\n"} {
+		f.Add([]byte(s))
+	}
+	f.Fuzz(func(t *testing.T, data []byte) {
+		if len(data) > 4096 {
+			return
+		}
+		c := c23Case{Src: vstat.Q(data)}
+		ff, _ := runC23(c)
+		if ff == nil {
+			return
+		}
+		if st.LiveFor(ff.Sig) != "" {
+			return
+		}
+		fuzzReport("C23", ff, c)
+		t.Fatalf("%v", ff)
+	})
+}
